@@ -24,6 +24,7 @@ PROP = {  # commit subject keyword -> property
     "running out of compiler table space": "C05", "stored -1 for an unknown operand name": "C05", "alloc_regs[-1]": "C05",
     "aborted (ORC_ASSERT) on a scalar constant": "C05", "wider than ORC_MAX_VAR_SIZE": "C05", "c64x-c back end indexed": "C05",
     "an accumulator used as a source operand": "C05", "64 KiB code buffer": "C05", "instruction queue grew by ten": "C05", "fixup tables": "C05", "constant table (ORC_N_CONSTANTS": "C05",
+    "name the fourth accumulator a4": "C07",
     "written in hex with the top bit set": "C15", "declared with .const under its own name": "C15", "repeats an existing constant": "C15",
 }
 log = subprocess.run(["git", "-C", "/repo", "log", "--format=%h %s"], stdout=subprocess.PIPE, text=True).stdout.strip().split("\n")
